@@ -1,3 +1,3 @@
 From Coq Require Import List ZArith Extraction ExtrOcamlBasic.
 Require Import RV.model.VmRun.
-Extraction "vmrun_model.ml" exec0_out cfg_current cfg_nodrop cfg_nopush cfg_pinned cfg_noclone deep fact at_depth.
+Extraction "vmrun_model.ml" exec0_out cfg_current cfg_nodrop cfg_nopush cfg_pinned cfg_noclone cfg_norunip cfg_nomods deep fact at_depth.
